@@ -80,7 +80,7 @@ func init() {
 	registerProp(&PropDef{
 		ID:          "C02",
 		Rules:       []string{"A4", "A1", "T-SCAN", "A5", "L4", "X4"},
-		Explanation: "Decides that no path lets a failed transaction touch committed state or reach a monitor: (A4) the committed rows and the reference index are written only in inMemoryDatabase.Commit/CreateDatabase and Commit is called only from OvsdbServer.Transact; (A1) the Database read API (List, Get, GetReferences) hands out no alias of committed storage, so executing a transaction cannot modify the database before commit; (T-SCAN) processMonitors and Commit are dominated by the loop that returns on the first result with a non-empty Error; (A5) no error result is discarded on the commit path; (X4) reference processing and the index check precede the success return with their errors tested; (L4) all of it under txnMutex.",
+		Explanation: "Decides that no path lets a failed transaction touch committed state or reach a monitor: (A4) the committed rows and the reference index are written only in inMemoryDatabase.Commit/CreateDatabase and Commit is called only from OvsdbServer.Transact; (A1) the Database read API (List, Get, GetReferences) hands out no alias of committed storage, so executing a transaction cannot modify the database before commit; (T-SCAN) processMonitors and Commit are dominated by the loop that returns on the first result with a non-empty Error; (A5) no error result is discarded on the commit path; (X4) reference processing and the index check precede the success return with their errors tested; (L4) all of it under txnMutex. Added during the build: the exemption that lets an insert skip the uuid-in-use lookup is keyed by table and uuid (T-UUIDFREE).",
 		NotCovered:  "shape of the reply array; atomicity of Commit itself if ApplyCacheUpdate failed midway (value dependent)",
 	})
 	registerProp(&PropDef{
@@ -122,13 +122,13 @@ func init() {
 	registerProp(&PropDef{
 		ID:          "C09",
 		Rules:       []string{"E6", "T-GUARD", "GEN-ATOM", "GEN-SHAPE"},
-		Explanation: "Decides a narrow clause of C09: the conversion tables (NativeType, OvsToNative, NativeToOvs, default-value test, atomic tables) handle every column type (E6); the Go-type test dominates every conversion in NativeToOvs/NativeToOvsAtomic and SetField's assignability test dominates the reflective store, i.e. a mismatching Go type is rejected, not converted (T-GUARD).",
+		Explanation: "Decides a narrow clause of C09: the conversion tables (NativeType, OvsToNative, NativeToOvs, default-value test, atomic tables) handle every column type (E6); the Go-type test dominates every conversion in NativeToOvs/NativeToOvsAtomic and SetField's assignability test dominates the reflective store, i.e. a mismatching Go type is rejected, not converted (T-GUARD). Added during the build: no encoder of package ovsdb quotes strings with Go syntax (K-JSONQUOTE).",
 		NotCovered:  "round-trip equality through JSON for all values",
 	})
 	registerProp(&PropDef{
 		ID:          "C10",
 		Rules:       []string{"A3"},
-		Explanation: "Decides only the clause 'neither computing nor applying a difference alters the model it was computed from': every call of the in-place algorithms (difference, applyDifference, mergeDifference, setDifference, mergeMapDifference, mutate*) receives as its rewritten argument a field of a model cloned in the same function (or at every static caller), a local accumulator, or the result of a previous step (A3).",
+		Explanation: "Decides only the clause 'neither computing nor applying a difference alters the model it was computed from': every call of the in-place algorithms (difference, applyDifference, mergeDifference, setDifference, mergeMapDifference, mutate*) receives as its rewritten argument a field of a model cloned in the same function (or at every static caller), a local accumulator, or the result of a previous step (A3). Added during the build: projecting a row on the monitored columns never turns an existing row into no row, so the kind of a row update survives (S-KEEPKIND).",
 		NotCovered:  "apply(a, diff(a,b)) = b and emptiness iff equal: value-level",
 	})
 	registerProp(&PropDef{
@@ -140,7 +140,7 @@ func init() {
 	registerProp(&PropDef{
 		ID:          "C12",
 		Rules:       []string{"K1", "K2", "K3", "E6"},
-		Explanation: "Decides codec agreement for every hand-written MarshalJSON/UnmarshalJSON pair of package ovsdb: both halves are reduced to a map wire member (or array position) -> receiver fields by a taint propagation over the typed AST; no member is dropped, duplicated or cross-wired between encoder and decoder (K1 keyed: BaseType, ColumnType, ColumnSchema, MonitorSelect; K2 positional: Condition, Mutation, MonitorCondSinceReply, UUID); the error-name tables of errorFromResult and ResultFromError are inverse bijections over all declared names (K3); the decoders of Condition and Mutation accept exactly the declared functions/mutators (E6).",
+		Explanation: "Decides codec agreement for every hand-written MarshalJSON/UnmarshalJSON pair of package ovsdb: both halves are reduced to a map wire member (or array position) -> receiver fields by a taint propagation over the typed AST; no member is dropped, duplicated or cross-wired between encoder and decoder (K1 keyed: BaseType, ColumnType, ColumnSchema, MonitorSelect; K2 positional: Condition, Mutation, MonitorCondSinceReply, UUID); the error-name tables of errorFromResult and ResultFromError are inverse bijections over all declared names (K3); the decoders of Condition and Mutation accept exactly the declared functions/mutators (E6). Added during the build: no encoder of package ovsdb quotes strings with Go syntax (K-JSONQUOTE).",
 		NotCovered:  "struct-tag driven encoding done by encoding/json itself (trusted), OvsSet/OvsMap element conversion, numeric fidelity",
 	})
 	registerProp(&PropDef{
@@ -164,7 +164,7 @@ func init() {
 	registerProp(&PropDef{
 		ID:          "C16",
 		Rules:       []string{"E7", "R-DEFER", "R-ONCE", "DEFER-APPEND", "L2"},
-		Explanation: "Decides the resynchronisation structure: (E7) a typestate analysis over connect(reconnect) and its callees shows no cache Purge is reachable after a Populate of the same cache within one reconnect (the only path refinement: a guard that is false when len(monitors) >= 2), the restart loop ranges over db.monitors, calls monitor(reconnecting=true) on every iteration and a failure resets the connection; (R-DEFER) every reconnect attempt first sets deferUpdates and clears deferredUpdates; (R-ONCE) the transact RPC is sent once per Transact; (DEFER-APPEND, L2) buffered notifications are kept in order under cacheMutex.",
+		Explanation: "Decides the resynchronisation structure: (E7) a typestate analysis over connect(reconnect) and its callees shows no cache Purge is reachable after a Populate of the same cache within one reconnect (the only path refinement: a guard that is false when len(monitors) >= 2), the restart loop ranges over db.monitors, calls monitor(reconnecting=true) on every iteration and a failure resets the connection; (R-DEFER) every reconnect attempt first sets deferUpdates and clears deferredUpdates; (R-ONCE) the transact RPC is sent once per Transact; (DEFER-APPEND, L2) buffered notifications are kept in order under cacheMutex. Added during the build: rpcClient == nil implies !connected at every release of rpcMutex, and only connect() reports the client connected, after the monitors are re-established (S-CONNFLAG).",
 		NotCovered:  "fault positions, backoff, leader election, exactly-once on the server side",
 	})
 	registerProp(&PropDef{
@@ -182,7 +182,7 @@ func init() {
 	registerProp(&PropDef{
 		ID:          "C19",
 		Rules:       []string{"P-IDX", "P-ASSERT", "P-NIL", "P-HASH", "P-NIL-TXN", "P-NIL-MON", "P-DIV", "G-GATE", "N-COVER"},
-		Explanation: "Decides totality obligations on the code that consumes untrusted input, for every site: in every UnmarshalJSON of package ovsdb and the functions they reach, each slice/string index needs a dominating length test on an equivalent operand (P-IDX), each single-result type assertion a dominating successful comma-ok assertion / type-switch arm (P-ASSERT), each optional pointer member a dominating nil test (P-NIL), each interface-typed map key a comparable dynamic type on every path (P-HASH); on the transaction path every optional member of an Operation is nil-tested (P-NIL-TXN), every integer / and % has a non-zero divisor locally or through the ValidateMutation gate pair (P-DIV), unknown tables/columns are rejected before dispatch (G-GATE), and the notification path tolerates absent select/request (P-NIL-MON).",
+		Explanation: "Decides totality obligations on the code that consumes untrusted input, for every site: in every UnmarshalJSON of package ovsdb and the functions they reach, each slice/string index needs a dominating length test on an equivalent operand (P-IDX), each single-result type assertion a dominating successful comma-ok assertion / type-switch arm (P-ASSERT), each optional pointer member a dominating nil test (P-NIL), each interface-typed map key a comparable dynamic type on every path (P-HASH); on the transaction path every optional member of an Operation is nil-tested (P-NIL-TXN), every integer / and % has a non-zero divisor locally or through the ValidateMutation gate pair (P-DIV), unknown tables/columns are rejected before dispatch (G-GATE), and the notification path tolerates absent select/request (P-NIL-MON). Added during the build: every index on the positional parameters of a request in the rpc2 handlers of the built-in server has a dominating length test (P-IDX-RPC), the element of a ranged map of monitor requests is nil-tested before it is dereferenced (P-NIL-MON), and every polling loop on the transact path has a time-bounded exit that does not depend on an optional member (P-POLL).",
 		NotCovered:  "unchecked assertions in the transaction path that rely on upstream schema validation, 'cannot happen' panics on schema errors, resource exhaustion",
 	})
 	registerProp(&PropDef{
